@@ -29,7 +29,7 @@ ASSUMPTIONS = ["process-level durations are sleeps of 0-0.2 s on a loaded machin
 # ([add_fixed]); a duplicate number or a second previous mark is a plain violation again.
 KF_ID = None
 KF_PREV = None
-KF_WAIT_ERR = "KF-C17-wait-error-abort"
+KF_WAIT_ERR = None      # fixed: e3063e4 — an errored task is a finished, failed job; deviations are plain violations
 KF_WAIT_STATUS = "KF-C17-wait-status"
 KF_KILL = "KF-C17-kill-jobspec"
 _SESSIONS = []
@@ -117,6 +117,9 @@ def gen_api(ctx):
             cases.append(base + ["M:-,%d" % alive[0], "P", "A", "J%d" % (n + 1)])
             cases.append(base + ["A", "M:%d,%d,+" % (alive[0], n + 1), "P"])
     for pre in (["E", "A"], ["A", "E", "A"], ["E"], ["A", "E"]):
+        cases.append(pre + ["W", "W"])
+        cases.append(pre + ["W", "P", "A", "W"])
+        cases.append(pre + ["A", "W", "A", "J1", "W"])
         cases.append(pre + ["W"])
         cases.append(pre + ["J1", "W"])
         cases.append(pre + ["F1", "P", "W"])
@@ -297,7 +300,7 @@ def eval_api(ctx):
         if use_model:
             if m_old[k] != m_fix[k]:
                 n_diff += 1
-            if il != m_fix[k] and not any(kn == KF_WAIT_ERR for _, kn in issues):
+            if il != m_fix[k] :
                 mism.append({"ops": seq, "code": outs, "model": core.dec_line(m_fix[k])})
     return cases, m_fix, mism, specv, {"api_cases": len(cases), "cases_where_the_old_numbering_differs": n_diff,
                                        "model": "repaired numbering (max id + 1, one previous)"}
